@@ -3,4 +3,4 @@
    OCaml's; N, positive, Z, nat, byte, string, ascii stay extracted inductives. *)
 From Coq Require Import Extraction ExtrOcamlBasic.
 From BS Require Import Impl.Render.
-Extraction "model.ml" run_case run_ref_case run_cache lex_compare Byte.of_N Byte.to_N N.of_nat N.to_nat.
+Extraction "model.ml" run_case run_ref_case run_cache run_find lex_compare Byte.of_N Byte.to_N N.of_nat N.to_nat.
